@@ -58,13 +58,21 @@ func (i importer) avoiding(locals map[string]struct{}) importer {
 // code: those the templates spell out. Names handed out by newVar are added
 // as they are given.
 func newLocals() map[string]struct{} {
-	return map[string]struct{}{
-		"e":       {},
-		"err":     {},
-		"request": {},
-		"result":  {},
-		"success": {},
+	locals := make(map[string]struct{})
+	for _, name := range []string{
+		// spelled out by the templates
+		"e", "err", "i", "request", "result", "success",
+		// requested from newVar by the templates; listed as well because
+		// a package may be imported before the template that uses the
+		// variable is rendered
+		"count", "d", "enc", "f", "fh", "field", "fields", "j", "k", "key",
+		"kw", "l", "lh", "lhs", "lk", "lv", "m", "mh", "o", "ok", "rhs", "rk",
+		"rv", "s", "sh", "sr", "sw", "t", "text", "v", "val", "value", "vw",
+		"w", "x", "y",
+	} {
+		locals[name] = struct{}{}
 	}
+	return locals
 }
 
 // AddImportSpec allows adding existing import specs to the importer.
